@@ -635,7 +635,7 @@ def shuffled(rng, L):
     return [L[i] for i in rng.permutation(len(L))]
 
 
-def make_groups_for_graph(rng, A, directed, tier, exhaustive, both_weightings):
+def make_groups_for_graph(rng, A, directed, tier, exhaustive, both_weightings, scale=1.0):
     """Groups for one graph: weightings x (split node x proportions x second split) x bipartitions."""
     n = len(A)
     groups = []
@@ -643,6 +643,7 @@ def make_groups_for_graph(rng, A, directed, tier, exhaustive, both_weightings):
     for wkind in kinds:
         grid = wkind == "grid"
         w = rng.choice(W_GRID, size=n) if grid else rng.uniform(0.2, 3.0, size=n)
+        w = w * scale       # the invariance is stated for arbitrary positive weights: totals far from N as well
         W = link_weights(rng, A, directed, grid)
         if exhaustive:
             parts = list(bipartitions(n))
@@ -689,6 +690,16 @@ def gen_groups(tier, seed):
         dens = float(rng.choice([0.1, 0.2, 0.35, 0.6, 0.85]))
         groups += make_groups_for_graph(rng, random_graph(rng, n, dens, directed), directed, tier,
                                         False, False)
+    # weights of another order of magnitude than 1 (total weight >> N and << N): spectral shifts, normalisers and
+    # thresholds that silently assume w ~ 1 show here
+    rng2 = np.random.RandomState(seed + 7919)
+    for t in range(12 if tier == "quick" else 90):
+        directed = bool(t % 2)
+        n = int(rng2.randint(5, 10 if tier == "quick" else 16))
+        dens = float(rng2.choice([0.2, 0.35, 0.6, 0.85]))
+        scale = [7.5, 30.0, 250.0, 0.02][t % 4]
+        groups += make_groups_for_graph(rng2, random_graph(rng2, n, dens, directed), directed, tier,
+                                        False, False, scale=scale)
     return groups
 
 
